@@ -1,5 +1,6 @@
 """C09 - kdq-tree detectors alarm exactly when leaf divergence exceeds a bootstrap bound."""
 from .. import drv_kdq as D
+from .. import containers as C
 
 
 def rep_stream(ts):
@@ -18,9 +19,11 @@ def run(ctx):
     ts = []
     for i in range(ns):
         p = D.stream_params(rng)
-        p["feed"] = ("array", "halves", "frame")[i % 3]          # float rows / Python lists mixing ints and floats / one-row DataFrames
+        p["feed"] = ("array", "halves", "frame", "mix")[i % 4]   # float rows / Python lists mixing ints and floats / one-row DataFrames / a draw per call
         if p["feed"] == "halves":
             p["lbnum"] = 0       # the minimum cell size is int(lbound * range): only with lbound = 0 is the tree exactly scale-equivariant
+        if p["feed"] == "mix":
+            C.choose(rng, p, C.ROW_KINDS)
         n = rng.randint(8, 14) * p["window_size"]
         xs = D.bursty_stream(rng, n, rng.randint(1, 3), p["window_size"])
         resets = sorted(rng.sample(range(5, n), rng.randint(0, 1)))
@@ -30,6 +33,8 @@ def run(ctx):
     tb = []
     for i in range(nb):
         p = D.batch_params(rng)
+        if i % 3 != 0:
+            C.choose(rng, p, C.BATCH_KINDS)
         n = rng.randint(6, 12)
         bs = D.batch_sequence(rng, n, rng.randint(1, 3))
         setrefs = sorted(rng.sample(range(2, n), rng.randint(0, 1)))
